@@ -268,6 +268,23 @@ var rules = []rule{
 		return b.hd != nil || (b.fn != nil && (b.fn.Ret == nil || b.fn.Ret.K == m.None))
 	}, lines: func(*rapid.T, blockRef) []string { return []string{"if true", "    return 1", "end"} }},
 	{name: "unreachable-code", lines: func(t *rapid.T, b blockRef) []string {
+		if rapid.Bool().Draw(t, "generated-chain") {
+			// a statement after an if / else if / else chain all of whose branches end the enclosing loop iteration
+			n := rapid.IntRange(2, 4).Draw(t, "branches")
+			lines := []string{"zz_u := 0", "while zz_u < 3", "    zz_u = zz_u + 1"}
+			for i := 0; i < n; i++ {
+				switch {
+				case i == 0:
+					lines = append(lines, "    if zz_u == 0")
+				case i == n-1:
+					lines = append(lines, "    else")
+				default:
+					lines = append(lines, fmt.Sprintf("    else if zz_u == %d", i))
+				}
+				lines = append(lines, "        break")
+			}
+			return append(lines, "    end", "    print \"unreachable\"", "end")
+		}
 		if b.fn != nil && (b.fn.Ret == nil || b.fn.Ret.K == m.None) || b.hd != nil {
 			return []string{"if true", "    return", "    print \"unreachable\"", "end"}
 		}
@@ -286,6 +303,38 @@ var rules = []rule{
 		}[rapid.IntRange(0, 4).Draw(t, "v")]
 	}},
 	{name: "missing-return", topOnly: true, lines: func(t *rapid.T, _ blockRef) []string {
+		if rapid.Bool().Draw(t, "generated-chain") {
+			// a typed function whose body ends in an if / else if / else chain in which at least one
+			// branch does not end in a return (spec.md#break-and-return, #functions: a function with a
+			// result type must end in a terminating statement on every path)
+			n := rapid.IntRange(2, 5).Draw(t, "branches") // if, n-2 else-ifs, else
+			falls := make([]bool, n)
+			any := false
+			for i := range falls {
+				falls[i] = rapid.IntRange(0, 2).Draw(t, "falls") == 0
+				any = any || falls[i]
+			}
+			if !any {
+				falls[rapid.IntRange(0, n-1).Draw(t, "whichfalls")] = true
+			}
+			lines := []string{"func zz_m:num zz_p:num"}
+			for i := 0; i < n; i++ {
+				switch {
+				case i == 0:
+					lines = append(lines, "    if zz_p == 0")
+				case i == n-1:
+					lines = append(lines, "    else")
+				default:
+					lines = append(lines, fmt.Sprintf("    else if zz_p == %d", i))
+				}
+				if falls[i] {
+					lines = append(lines, fmt.Sprintf("        print %d", i))
+				} else {
+					lines = append(lines, fmt.Sprintf("        return %d", i))
+				}
+			}
+			return append(lines, "    end", "end", "print (zz_m 1)")
+		}
 		return [][]string{
 			{"func zz_m:num", "    print 1", "end", "print (zz_m)"},
 			{"func zz_m:num zz_p:num", "    if zz_p > 0", "        return 1", "    end", "end", "print (zz_m 1)"},
